@@ -26,7 +26,9 @@ def slide_case(rng):
     res = rng.choice([1, 2, 3, 7, 10, 1000, 50_000_000])
     interval = res * TICKS + rng.choice([0, 0, 0, 1, TICKS - 1])
     interval = max(interval, TICKS)
-    res = interval // TICKS
+    if rng.random() < 0.04:
+        interval = rng.choice([0, 1, 5, 19])        # below breakerTicks ns: must be refused by NewOutboundBreaker
+    res = max(1, interval // TICKS)
     k = rng.choice(list(range(0, 26)) + [TICKS - 1, TICKS, TICKS + 1, 40, 1000])
     gap = k * res + rng.choice([0, 0, 1, -1, res // 2, res - 1])
     if rng.random() < 0.05:
@@ -34,19 +36,46 @@ def slide_case(rng):
     return {"kind": "slide", "interval": interval, "counts": counts(rng), "gap": max(0, gap)}
 
 
-PATTERNS = ("burst", "fast", "slow", "lossy", "mixed", "pause", "boundary")
+PATTERNS = ("burst", "fast", "slow", "lossy", "mixed", "pause", "boundary", "fastpoll", "slowpoll", "statuspoll", "subtick-admits")
 
 
-def gap_script(rng, res, pattern, n):
+def gap_script(rng, res, pattern, n, limit=1):
     gaps = [0]
+    if pattern == "fastpoll":
+        # fill the window in a burst, then poll faster than a tick (a fixed or a jittered sub-tick period) for more than one
+        # window: the arrival pattern on which a breaker whose slide forgets the remainder never recovers
+        d = rng.choice([max(1, res // 10), max(1, res // 10), max(1, res // 3), max(1, res - 1)])
+        jitter = rng.random() < 0.4
+        burst = rng.randint(limit, limit + 2)
+        total = 0
+        gaps += [0] * burst
+        while total < (TICKS + rng.randint(1, 12)) * res and len(gaps) < 900:
+            g = rng.randint(0, d) if jitter else d
+            gaps.append(g)
+            total += g
+        return gaps
+    if pattern == "slowpoll":
+        # the same with a period between one and two ticks (part of every gap is a remainder)
+        burst = rng.randint(limit, limit + 2)
+        gaps += [0] * burst
+        d = res + rng.randint(1, max(1, res - 1)) if res > 1 else 1
+        gaps += [d] * rng.randint(TICKS // 2, 2 * TICKS + 4)
+        return gaps
+    if pattern == "subtick-admits":
+        # admissions less than a tick apart (each re-anchors the clock), then polls until well after the graded window
+        k = rng.randint(1, limit + 1)
+        gaps += [rng.randint(0, max(0, res - 1)) for _ in range(k)]
+        gaps += [TICKS * res - rng.randint(0, 2 * res)]
+        gaps += [rng.randint(0, max(1, res // 2)) for _ in range(rng.randint(4, 30))]
+        return gaps
     for i in range(1, n):
         if pattern == "burst":
             g = 0
         elif pattern == "fast":      # polling faster than a tick
             g = rng.randint(0, max(0, res - 1)) if res > 1 else 0
-        elif pattern == "slow":      # whole ticks, nothing lost
+        elif pattern == "slow":      # whole ticks
             g = rng.randint(1, 6) * res
-        elif pattern == "lossy":     # slower than a tick, remainder lost
+        elif pattern == "lossy":     # slower than a tick, with a remainder
             g = rng.randint(1, 3) * res + rng.randint(res // 2, max(res // 2, res - 1))
         elif pattern == "pause":     # bursts separated by pauses around one window
             g = 0 if rng.random() < 0.7 else rng.choice([TICKS - 1, TICKS, TICKS + 1, 2 * TICKS]) * res + rng.randint(0, res)
@@ -60,29 +89,48 @@ def gap_script(rng, res, pattern, n):
 
 
 def breaker_seq_case(rng, thorough=False):
-    """the real Do() with back-dated `updated`; res large against the call overhead for the patterns that aim at
-    a tick phase, small (nanoseconds) to hit exact multiples by chance"""
+    """the real Do()/Status()/Summary() on a virtual clock (exact clock readings): every resolution from 1 ns up"""
     limit = rng.choice([1, 1, 2, 3, 5, 8])
-    pattern = rng.choice(PATTERNS)
-    if rng.random() < 0.2:
-        res = rng.choice([10, 50, 1000])       # effective gaps dominated by the real call overhead (hundreds of ns)
-    else:
-        res = rng.choice([1_000_000, 5_000_000, 50_000_000])
-    interval = res * TICKS + (rng.choice([0, 0, 7, 19]) if res > 1000 else 0)
+    r = rng.random()
+    # the arrival patterns of the repaired defects get about half of the cases
+    pattern = rng.choice(["fastpoll", "fastpoll", "slowpoll", "statuspoll", "subtick-admits"]) if r < 0.5 else rng.choice(PATTERNS)
+    res = rng.choice([1, 2, 3, 7, 10, 10, 1000, 1_000_000, 50_000_000])
+    interval = res * TICKS + rng.choice([0, 0, 0, 7, 19])
+    res = interval // TICKS
     n = rng.randint(4, 60 if thorough else 40)
-    c = {"kind": "breaker_seq", "limit": limit, "interval": interval, "gaps": gap_script(rng, interval // TICKS, pattern, n),
-         "pattern": pattern}
-    if rng.random() < 0.2:
+    base = "fastpoll" if pattern == "statuspoll" else pattern
+    gaps = gap_script(rng, res, base, n, limit)
+    times, t = [], 0
+    for g in gaps:
+        t += g
+        times.append(t)
+    ops = ["do"] * len(times)
+    if pattern == "statuspoll" or rng.random() < 0.25:
+        # polls through Status()/Summary(): they slide the window too; keep a Do every few arrivals so that recovery is observed
+        p = 0.8 if pattern == "statuspoll" else 0.3
+        for i in range(len(ops)):
+            if i > limit and i % 5 != 0 and rng.random() < p:
+                ops[i] = rng.choice(["status", "status", "summary"])
+    c = {"kind": "breaker_seq", "limit": limit, "interval": interval, "times": times, "ops": ops, "pattern": pattern}
+    if rng.random() < 0.15:
         c["counts"] = counts(rng)
+        c["updated"] = 0
         c["pattern"] += "+state"
     return c
+
+
+def new_case(rng):
+    """NewOutboundBreaker / Adjust with limits and intervals around what must be refused (limit < 1, interval < breakerTicks ns)"""
+    return {"kind": "c20.breaker_new", "limit": rng.choice([-3, 0, 1, 1, 1, 2, 7]),
+            "interval": rng.choice(list(range(-2, 45)) + [TICKS - 1, TICKS, TICKS + 1, 0, -1, -10 ** 9, 10 ** 9, 3_600_000_000_000]),
+            "adjust": rng.random() < 0.4}
 
 
 def timed_script(rng):
     """wall-clock script: gaps aimed at the middle of a tick so that microsecond jitter cannot change the tick count"""
     res_ms = rng.choice([4, 5, 8])
     limit = rng.choice([1, 2, 3])
-    pattern = rng.choice(["burst", "fast", "slow", "pause"])
+    pattern = rng.choice(["burst", "fast", "fast", "slow", "pause"])
     sleeps = [0]
     budget = 450_000  # us
     for i in range(rng.randint(6, 30)):
@@ -114,19 +162,39 @@ def conc_script(rng):
 def throttle_case(rng):
     n = rng.randint(1, 6)
     limit = rng.choice([0, 0, 1, 1, 2, 3])
-    disabled = rng.random() < 0.3
+    disabled = rng.random() < 0.4
     evs = []
     total = n
+    if rng.random() < 0.5:
+        # aimed at the overflow path: fill pending up to the limit, then toggle Disable around further submissions
+        # (a Submit that overflows while the throttle is disabled must leave `pending` alone), then let everybody return
+        fill = min(total, limit + 1)
+        evs += [{"ev": "sub", "tid": i} for i in range(fill)]
+        for _ in range(rng.randint(1, 4)):
+            if rng.random() < 0.7:
+                evs.append({"ev": "disable", "on": rng.random() < 0.7})
+            if rng.random() < 0.6 or fill >= total:
+                evs.append({"ev": "spawn"})
+                total += 1
+            evs.append({"ev": "sub", "tid": rng.randrange(fill, total)})
+        if rng.random() < 0.7:
+            evs += [{"ev": "sub", "tid": i} for i in range(fill)]          # the waiting ones return
+            if rng.random() < 0.5:
+                evs.append({"ev": "disable", "on": False})
+            evs.append({"ev": "spawn"})
+            total += 1
+            evs.append({"ev": "sub", "tid": total - 1})                     # a late submitter must be served
+        return {"kind": "c20.throttle", "pendingLimit": limit, "disabled": disabled, "n": n, "evs": evs, "pattern": "overflow-toggle"}
     for _ in range(rng.randint(3, 24)):
         r = rng.random()
-        if r < 0.8:
+        if r < 0.75:
             evs.append({"ev": "sub", "tid": rng.randrange(total)})
         elif r < 0.9:
             evs.append({"ev": "disable", "on": rng.random() < 0.5})
         else:
             evs.append({"ev": "spawn"})
             total += 1
-    return {"kind": "c20.throttle", "pendingLimit": limit, "disabled": disabled, "n": n, "evs": evs}
+    return {"kind": "c20.throttle", "pendingLimit": limit, "disabled": disabled, "n": n, "evs": evs, "pattern": "random"}
 
 
 def submit_loop_case(rng):
